@@ -6,7 +6,7 @@ from .parse import parse_mir, scan_balanced, split_top, MirSyntaxError
 from .srcinfo import SrcInfo
 
 _LIFETIME = re.compile(r"'[a-z_]\w*\b(?!')\s*")
-_MODPREFIX = re.compile(r'\b(?:[a-z_][a-z0-9_]*::)+')
+_MODPREFIX = re.compile(r'(?<![:\w>\]}])(?:[a-z_][a-z0-9_]*::)+')
 _IMPL_AT = re.compile(r'<impl at ([^:>]+):(\d+):(\d+): (\d+):(\d+)>')
 
 
@@ -16,7 +16,7 @@ def strip_turbofish(s):
     i = 0
     n = len(s)
     while i < n:
-        if s.startswith('::<', i):
+        if s.startswith('::<', i) and not s.startswith('::<impl ', i):
             j, _ = scan_balanced(s, i + 3, ['>'])
             i = j + 1
             continue
